@@ -1243,6 +1243,16 @@ def _sqrt_atom(x):
         RULES[a.id] = x.n
         a.axioms = [a.z >= 0, a.z * a.z == p_z3(x.n)]
         a.deps = tuple(x.atoms())
+        # closed NEGATIVE radicand (numpy: nan, computed eagerly on a branch that is then not used): no defining axioms -
+        # r^2 = negative would make every query mentioning the atom vacuously unsatisfiable
+        try:
+            xv = sym_value(x, {}) if x.const_value() is None else None
+        except (KeyError, ZeroDivisionError, ValueError):
+            xv = None
+        if xv is not None and xv < -1e-9:
+            a.axioms = []
+            a.nonneg = False
+            del RULES[a.id]
         cv = x.const_value()
         if cv is not None:
             f = math.sqrt(float(cv))
@@ -1484,6 +1494,16 @@ def _fresh_trig(x, used):
                z3.Implies(z3.And(yz < 0, yz > -P), s.z < 0),
                z3.Implies(z3.And(yz > -2 * P, yz < 2 * P, yz != 0), c.z < 1),
                z3.Implies(yz >= 0, s.z <= yz), z3.Implies(yz <= 0, s.z >= yz)]
+        # closed argument (pi, square roots of constants ...): pin the values to a float interval (+-1e-12, far above the
+        # rounding error of the evaluation) so that models cannot drift away from the real value
+        try:
+            yv = sym_value(y, {})
+        except (KeyError, ZeroDivisionError, ValueError):
+            yv = None
+        if yv is not None and abs(yv) < 1e6:
+            for atom_, val in ((s, math.sin(yv)), (c, math.cos(yv))):
+                lo_, hi_ = Fraction(val) - Fraction(1, 10 ** 12), Fraction(val) + Fraction(1, 10 ** 12)
+                ax += [atom_.z >= z3.Q(lo_.numerator, lo_.denominator), atom_.z <= z3.Q(hi_.numerator, hi_.denominator)]
         s.axioms = ax
         c.axioms = ax
         s.deps = tuple(y.atoms() | {pi_atom().id})
